@@ -99,6 +99,9 @@ type ModuleSpec struct {
 	// Sub: a second module in a subdirectory, required and replaced by the main one, so that one run
 	// can span two modules with different module paths and go versions.
 	Sub *SubModule `json:"sub,omitempty"`
+	// Workspace: the two modules are joined by a go.work file in the root instead of a replace directive
+	// (the worker's go command then runs in workspace mode).
+	Workspace bool `json:"workspace,omitempty"`
 }
 
 // SubModule is a locally replaced second module.
@@ -163,6 +166,23 @@ func (m *ModuleSpec) Closure(roots []int) []int {
 		out = append(out, i)
 	}
 	sort.Slice(out, func(a, b int) bool { return m.ImportPath(out[a]) < m.ImportPath(out[b]) })
+	return out
+}
+
+// Local returns the packages gengo treats as local for a run over the given entrypoints: the import
+// closure of the entrypoints restricted to the modules the entrypoints themselves belong to.
+func (m *ModuleSpec) Local(roots []int) []int {
+	mods := map[string]bool{}
+	for _, r := range roots {
+		mp, _ := m.ModuleOf(r)
+		mods[mp] = true
+	}
+	var out []int
+	for _, i := range m.Closure(roots) {
+		if mp, _ := m.ModuleOf(i); mods[mp] {
+			out = append(out, i)
+		}
+	}
 	return out
 }
 
@@ -364,6 +384,9 @@ func (m *ModuleSpec) Files() (files map[string]string, links map[string]string) 
 	files = map[string]string{}
 	links = map[string]string{}
 	files["go.mod"] = m.GoMod()
+	if m.Sub != nil && m.Workspace {
+		files["go.work"] = "go " + m.GoVer + "\n\nuse (\n\t.\n\t./" + m.Sub.Dir + "\n)\n"
+	}
 	if m.Sub != nil {
 		files[filepath.Join(m.Sub.Dir, "go.mod")] = "module " + m.Sub.Path + "\n\ngo " + m.Sub.GoVer + "\n"
 	}
@@ -385,7 +408,7 @@ func (m *ModuleSpec) Files() (files map[string]string, links map[string]string) 
 // GoMod renders the main go.mod.
 func (m *ModuleSpec) GoMod() string {
 	s := "module " + m.ModPath + "\n\ngo " + m.GoVer + "\n"
-	if m.Sub != nil {
+	if m.Sub != nil && !m.Workspace {
 		s += "\nrequire " + m.Sub.Path + " v0.0.0\n\nreplace " + m.Sub.Path + " => ./" + m.Sub.Dir + "\n"
 	}
 	return s
